@@ -21,7 +21,9 @@
   them, each with the cells the projection kept); the output is the list the statement returns.  A sort key is
   `absent` (the row has no such column: `get_sort_value` = `None` — a sort column outside the select list, the
   other side's columns in an outer-join row without partner), `null` (`Some(Value::Null)`) or an integer (the
-  harness sends strings as order-isomorphic integers).
+  harness sends strings as order-isomorphic integers).  Since /repo 1133d8d8 `compare_values_with_nulls` treats
+  `absent` and `null` alike (both follow the NULLS FIRST / LAST rule); the comparator before that commit is kept as
+  `cmpNullsOld` / `cmpRowsOld`.
 -/
 namespace Neumann.Parse.Exec
 
@@ -67,29 +69,25 @@ deriving DecidableEq, Repr
 def cmpInt (a b : Int) : Ordering :=
   if a < b then .lt else if a = b then .eq else .gt
 
-/-- `compare_values_with_nulls(a, b, nulls_order)`, arm by arm; `nf` = `nulls_order.unwrap_or(Last) == First`:
-      (None, None) | (Some(Null), Some(Null)) => Equal
-      (None | Some(Null), _)                  => First: Less,    Last: Greater     -- ALSO (None, Some(Null)) and (Some(Null), None)
-      (_, None | Some(Null))                  => First: Greater, Last: Less
-      (Some(va), Some(vb))                    => compare_values(va, vb) -/
+/-- `a.filter(|v| !matches!(v, Value::Null))` (/repo 1133d8d8): after the filter a cell that is missing and a cell
+that holds NULL are the same `None`; only a present non-NULL value is `Some` -/
+def Cell.filterNull : Cell → Option Int
+  | .val v => some v
+  | _ => none
+
+/-- `compare_values_with_nulls(a, b, nulls_order)` as it is since /repo 1133d8d8, arm by arm; `nf` =
+`nulls_order.unwrap_or(Last) == First`:
+      let a = a.filter(|v| !matches!(v, Value::Null));  let b = b.filter(|v| !matches!(v, Value::Null));
+      (None, None)         => Equal
+      (None, Some(_))      => First: Less,    Last: Greater
+      (Some(_), None)      => First: Greater, Last: Less
+      (Some(va), Some(vb)) => compare_values(va, vb) -/
 def cmpNulls (a b : Cell) (nf : Bool) : Ordering :=
-  match a, b with
-  | .absent, .absent => .eq
-  | .null, .null => .eq
-  | .val x, .val y => cmpInt x y
-  | .val _, _ => if nf then .gt else .lt
-  | _, _ => if nf then .lt else .gt
-
-/-- a sort column for which some row has no cell and another row has NULL: `compare_values_with_nulls` answers
-`Greater` (or `Less`) BOTH ways round for such a pair, the closure of `sort_rows` is then not an order and what
-`sort_by` does with it is unspecified (it may panic).  Rows of one table, of an inner / cross / natural join, and of
-an outer join whose sort column has no NULL never have such a column. -/
-def mixedCol (rows : List Row) (c : Nat) : Bool :=
-  rows.any (fun r => r.get c == .absent) && rows.any (fun r => r.get c == .null)
-
-/-- the rows the comparator of `sort_rows` orders consistently -/
-def consistent (order : List OrderItem) (rows : List Row) : Bool :=
-  order.all (fun it => !mixedCol rows it.col)
+  match a.filterNull, b.filterNull with
+  | none, none => .eq
+  | none, some _ => if nf then .lt else .gt
+  | some _, none => if nf then .gt else .lt
+  | some x, some y => cmpInt x y
 
 /-- one pass of the loop of `sort_rows`: the comparison INCLUDING the placement of NULLs is reversed for DESC -/
 def cmpItem (it : OrderItem) (a b : Row) : Ordering :=
@@ -103,6 +101,44 @@ def cmpRows : List OrderItem → Row → Row → Ordering
     match cmpItem it a b with
     | .eq => cmpRows its a b
     | c => c
+
+/-! ### the comparator BEFORE /repo 1133d8d8 (kept for the `…_witness` theorem and for "the repair changed nothing
+else"): no filter, a missing cell and a NULL cell met in the catch-all arms -/
+
+/-- `compare_values_with_nulls` before the repair, arm by arm:
+      (None, None) | (Some(Null), Some(Null)) => Equal
+      (None | Some(Null), _)                  => First: Less,    Last: Greater     -- ALSO (None, Some(Null)) and (Some(Null), None)
+      (_, None | Some(Null))                  => First: Greater, Last: Less
+      (Some(va), Some(vb))                    => compare_values(va, vb) -/
+def cmpNullsOld (a b : Cell) (nf : Bool) : Ordering :=
+  match a, b with
+  | .absent, .absent => .eq
+  | .null, .null => .eq
+  | .val x, .val y => cmpInt x y
+  | .val _, _ => if nf then .gt else .lt
+  | _, _ => if nf then .lt else .gt
+
+def cmpItemOld (it : OrderItem) (a b : Row) : Ordering :=
+  let c := cmpNullsOld (a.get it.col) (b.get it.col) (it.nulls.getD false)
+  if it.desc then c.swap else c
+
+def cmpRowsOld : List OrderItem → Row → Row → Ordering
+  | [], _, _ => .eq
+  | it :: its, a, b =>
+    match cmpItemOld it a b with
+    | .eq => cmpRowsOld its a b
+    | c => c
+
+/-- a sort column for which some row has no cell and another row has NULL (an outer join whose result holds both
+a NULL = NULL partner row and a row without partner): the pre-repair comparator answered `Greater` (or `Less`) BOTH
+ways round for such a pair.  Rows of one table, of an inner / cross / natural join, and of an outer join whose sort
+column has no NULL never have such a column. -/
+def mixedCol (rows : List Row) (c : Nat) : Bool :=
+  rows.any (fun r => r.get c == .absent) && rows.any (fun r => r.get c == .null)
+
+/-- the rows the pre-repair comparator ordered consistently -/
+def consistent (order : List OrderItem) (rows : List Row) : Bool :=
+  order.all (fun it => !mixedCol rows it.col)
 
 /-- insert `x`, which stood in front of every element of the (sorted) list, before the first element it is
 not greater than -/
@@ -118,6 +154,11 @@ def sortBy {α : Type} (cmp : α → α → Ordering) : List α → List α
 
 def sortRows (order : List OrderItem) (rows : List Row) : List Row :=
   sortBy (cmpRows order) rows
+
+/-- what a stable sort did with the pre-repair comparator WHERE that comparator was an order (`consistent`);
+elsewhere `sort_by` was free to do anything, a panic included -/
+def sortRowsOld (order : List OrderItem) (rows : List Row) : List Row :=
+  sortBy (cmpRowsOld order) rows
 
 /-- "Apply OFFSET clause if present" -/
 def applyOffset {α : Type} (c : Clause) (rows : List α) : List α :=
